@@ -553,12 +553,21 @@ func runTwoPiece(c twoPieceCase) (impl string, err error) {
 	}
 	ch := make(chan out, 1)
 	go func() {
-		rec, e := p.NextRecord(ctx) // sees the partial line at EOF, pauses, polls again
-		if e != nil {
-			ch <- out{nil, e}
+		for {
+			// sees the partial line at EOF: the reader pauses and polls again by itself, or (a reader that reports
+			// EOF while it keeps the partial line) the caller polls again, as the worker loop does
+			rec, e := p.NextRecord(ctx)
+			if e == io.EOF && ctx.Err() == nil {
+				time.Sleep(20 * time.Millisecond)
+				continue
+			}
+			if e != nil {
+				ch <- out{nil, e}
+				return
+			}
+			ch <- out{append([]byte{}, rec.Data...), nil}
 			return
 		}
-		ch <- out{append([]byte{}, rec.Data...), nil}
 	}()
 	time.Sleep(time.Duration(c.DelayMs) * time.Millisecond)
 	f, e := os.OpenFile(fn, os.O_APPEND|os.O_WRONLY, 0644)
